@@ -21,7 +21,7 @@ def sess(n):
 
 
 def flags(max_size=3):
-    return st.lists(st.integers(0, 19), min_size=0, max_size=max_size)
+    return st.lists(st.integers(0, 29), min_size=0, max_size=max_size)
 
 
 def step_select(n):
@@ -57,6 +57,20 @@ def steps_toggle(n):
     return st.builds(build, sess(n), st.booleans(), seqset(False), flags(), flags(), st.booleans(), st.booleans())
 
 
+NONPEEK_WHATS = [2, 3, 10, 11, 12]  # indices into hist.WHATS of the fetches that set \\Seen in a read-write session
+
+
+def steps_examine_probe(n):
+    """EXAMINE a mailbox and fetch message bodies with one of the forms that set \\Seen in a read-write session
+    (seeded/C05-5: the read-only override applied to BODY[..] only, so RFC822 / RFC822.TEXT still set \\Seen)."""
+    def build(s, b, u, ss, w, w2):
+        return [{"op": "select", "s": s, "box": b, "examine": True},
+                {"op": "fetch", "s": s, "uid": u, "set": ss, "what": w},
+                {"op": "fetch", "s": s, "uid": not u, "set": ss, "what": w2}]
+
+    return st.builds(build, sess(n), st.integers(0, 1), st.booleans(), seqset(False), st.sampled_from(NONPEEK_WHATS), st.sampled_from(NONPEEK_WHATS))
+
+
 def flatten(steps):
     out = []
     for x in steps:
@@ -75,7 +89,7 @@ def step_delete_flag(n, absent=False):
 def step_fetch(n, absent=False):
     return st.builds(
         lambda s, u, ss, w: {"op": "fetch", "s": s, "uid": u, "set": ss, "what": w},
-        sess(n), st.booleans(), seqset(absent), st.integers(0, 11),
+        sess(n), st.booleans(), seqset(absent), st.integers(0, 12),
     )
 
 
